@@ -49,6 +49,8 @@ def main(tier, replay_payload=None):
         C07.fold(run, outs, "C08:", bound)
         for sig in set(run.failures) - before:
             run.failures[sig]["payload"]["family"] = fam
+    from engine import battery
+    battery.validate(run)
     res = fault.explore_faults(f_args, fault_menu, 1)
     C13.fold(run, res, "C08:")
     run.functions = loader.function_lines(loader.load(), API_FUNCS + [
